@@ -48,6 +48,29 @@ func EncodeView(ctx context.Context, fp io.Writer, view *View, options option.Ex
 	}
 }
 
+// encodedLineBreak returns the bytes that spell a line break in a file of the given format and encoding.
+// The record writers encode what they write; a line break appended after them must be encoded the same way.
+func encodedLineBreak(lineBreak text.LineBreak, format option.Format, encoding text.Encoding) []byte {
+	b := []byte(lineBreak.Value())
+	switch format {
+	case option.CSV, option.TSV, option.FIXED, option.LTSV:
+	default:
+		return b
+	}
+	switch encoding {
+	case text.UTF16, text.UTF16BE, text.UTF16BEM:
+		encoding = text.UTF16BE
+	case text.UTF16LE, text.UTF16LEM:
+		encoding = text.UTF16LE
+	default:
+		return b
+	}
+	if encoded, err := text.Encode(b, encoding); err == nil {
+		return encoded
+	}
+	return b
+}
+
 func encodeCSV(ctx context.Context, fp io.Writer, view *View, options option.ExportOptions) error {
 	w, err := csv.NewWriter(fp, options.LineBreak, options.Encoding)
 	if err != nil {
